@@ -461,7 +461,7 @@ func CheckC12(tier string, seed uint64, rep *core.Reporter) (*core.Evidence, err
 	st := &c12State{x: x, rep: rep, classes: map[string]int{}, kinds: map[string]int{}, fired: map[string]int{},
 		distinct: map[string]bool{}, p1: map[string]bool{}, reached: map[string]int{}}
 
-	nWorlds, nByte, nIO := 12, 70, 10
+	nWorlds, nByte, nIO := 12, 56, 9
 	if tier == "thorough" {
 		nWorlds, nByte, nIO = 120, 220, 24
 	}
@@ -487,7 +487,18 @@ func CheckC12(tier string, seed uint64, rep *core.Reporter) (*core.Evidence, err
 	var wg sync.WaitGroup
 	rejected := 0
 
+	seenID := map[string]int{}
 	doRun := func(run *c12Run) {
+		// the ID names the scratch directory of the run: two runs executing
+		// concurrently must never share one (IDs carry the world index and
+		// runs of one world are issued sequentially, so the suffix is a
+		// function of the seed)
+		resMu.Lock()
+		seenID[run.ID]++
+		if n := seenID[run.ID]; n > 1 {
+			run.ID = fmt.Sprintf("%s~%d", run.ID, n)
+		}
+		resMu.Unlock()
 		wg.Add(1)
 		go func() {
 			defer wg.Done()
@@ -740,8 +751,10 @@ func CheckC12(tier string, seed uint64, rep *core.Reporter) (*core.Evidence, err
 			}
 			// environment
 			envs := []string{"dir-missing", "dir-is-file", "lox-is-dir", "gofile-is-dir", "genfile-is-dir", "outside-module", "outside-module", "symlinked-dir", "symlinked-dir"}
-			for _, ei := range permN(r, len(envs))[:2] {
-				doRun(&c12Run{ID: fmt.Sprintf("%d-e%s", wi, envs[ei]), Files: clone(), Kind: "env", Env: envs[ei],
+			for k, ei := range permN(r, len(envs))[:2] {
+				// the index keeps the directory of the run unique even when the
+				// same environment is drawn twice
+				doRun(&c12Run{ID: fmt.Sprintf("%d-e%d%s", wi, k, envs[ei]), Files: clone(), Kind: "env", Env: envs[ei],
 					Op: Op{Kind: "Gen", Binary: []string{"sim", "plain"}[r.Intn(2)], Map: randMap(r), Cwd: cwdModes[r.Intn(len(cwdModes))]}})
 			}
 		}(wi)
